@@ -193,7 +193,7 @@ def AICc(N, rho, k, norm=True):
     # and is undefined from there on
     den = N - p - 2.
     res = where(den > 0, log(rho) + 2. * (p+1) / where(den > 0, den, 1.), inf)
-    return res if res.ndim else float(res)
+    return res[()]
 
 
 def KIC(N, rho, k):
@@ -220,8 +220,9 @@ def AKICc(N, rho, k):
     # the small-sample correction grows without bound as p approaches N-2
     # and is undefined from there on
     den = N - p - 2.
-    res = where(den > 0, log(rho) + p/N/(N-p) + (3.-(p+2.)/N) * (p+1.) / where(den > 0, den, 1.), inf)
-    return res if res.ndim else float(res)
+    safe = where(den > 0, den, 1.)   # N-p = den+2 is positive wherever den is
+    res = where(den > 0, log(rho) + p/N/(safe+2.) + (3.-(p+2.)/N) * (p+1.) / safe, inf)
+    return res[()]
 
 
 def FPE(N,rho, k=None):
